@@ -103,6 +103,8 @@ func c09RenderEmpty(c *Ctx) {
 		}
 	}
 	r.Floor("R09.R", "Render functions and methods", n, 10)
+	// "either complete output or an error": a write error that is swallowed gives incomplete output and no error
+	importPremises(c, "R09.R", "write-error premise ", "a dropped write error is incomplete output reported as success", nil, func() { runC15(c) })
 }
 
 func isEmptyStringConst(v ssa.Value) bool {
